@@ -605,7 +605,7 @@ def _task(task):
 
 
 def grammars(tier: str, rng) -> List[dict]:
-    n_nonrec, n_rec = (7, 5) if tier == "quick" else (120, 80)
+    n_nonrec, n_rec = (6, 4) if tier == "quick" else (120, 80)
     from props import c03_bounded as C3
     # two chains (3 and 4 nodes in one rule): factorize_* must introduce fresh nonterminals on them
     out: List[dict] = [g for g in C3.handwritten() if g["meta"]["family"] in ("three-edges-private-first-node", "four-edges-edgeless-internal")
